@@ -48,6 +48,9 @@ type Muxer struct {
 	// We use map[uint32] instead map[uint16] as go runtime provide optimized hash functions for (u)int32/64 keys
 	esContexts              map[uint32]*esContext
 	tablesRetransmitCounter int
+
+	// continuity counters of removed streams, so that a stream added again on the same PID continues the sequence
+	removedCC map[uint32]wrappingCounter
 }
 
 type esContext struct {
@@ -92,6 +95,7 @@ func NewMuxer(ctx context.Context, w io.Writer, opts ...func(*Muxer)) *Muxer {
 		pmtCC: newWrappingCounter(0b1111),
 
 		esContexts: map[uint32]*esContext{},
+		removedCC:  map[uint32]wrappingCounter{},
 	}
 
 	m.bufWriter = astikit.NewBitsWriter(astikit.BitsWriterOptions{Writer: &m.buf})
@@ -131,6 +135,12 @@ func (m *Muxer) AddElementaryStream(es PMTElementaryStream) error {
 	m.pmt.ElementaryStreams = append(m.pmt.ElementaryStreams, &es)
 
 	m.esContexts[uint32(es.ElementaryPID)] = newEsContext(&es)
+	// The PID was used before: restarting its continuity counter would look like a discontinuity to receivers,
+	// which then drop the last unit they were assembling on that PID
+	if cc, ok := m.removedCC[uint32(es.ElementaryPID)]; ok {
+		m.esContexts[uint32(es.ElementaryPID)].cc = cc
+		delete(m.removedCC, uint32(es.ElementaryPID))
+	}
 	// invalidate pmt cache
 	m.pmtBytes.Reset()
 	m.pmtUpdated = true
@@ -164,6 +174,7 @@ func (m *Muxer) RemoveElementaryStream(pid uint16) error {
 	}
 
 	m.pmt.ElementaryStreams = append(m.pmt.ElementaryStreams[:foundIdx], m.pmt.ElementaryStreams[foundIdx+1:]...)
+	m.removedCC[uint32(pid)] = m.esContexts[uint32(pid)].cc
 	delete(m.esContexts, uint32(pid))
 	m.pmtBytes.Reset()
 	m.pmtUpdated = true
